@@ -44,19 +44,20 @@
       remap link goes from a clause to a strictly later clause or a leaf.
    3. interval_push: the enclosure hypothesis as written
          o_ltb (w s) (lo s) = false /\ o_ltb (hi s) (w s) = false
-      is satisfied by an unordered value (IEEE NaN), for which the decision of
-      keep_interval is NOT justified.  The theorem therefore carries a predicate
-      [ok] ("not a NaN") required of the arguments of min/max clauses, and the
-      order law [ol_sandwich] (x <= p < q <= y -> x < y) is only required for
-      ok x, ok y.  Concrete counterexample, proved in [NaNCounterexample] below:
-      one clause max(a,b), w a = NaN, w b = 7, bounds a in [0,5], b in [7,7]:
-      the bounds "enclose" the values in the above sense, keep_interval
-      answers KEEP_B, the pushed tape evaluates to 7, the full tape to NaN
-      (with a NaN-propagating max; with a max that returns its second argument
-      on NaN, swap the roles of a and b).  In libfive terms: IntervalEvaluator's
-      push looks at the bounds only and never at the may-be-NaN flag, so a tape
-      specialised on a box where some min/max argument can be NaN may return a
-      number where the full tape returns NaN.
+      is satisfied by an unordered value (IEEE NaN).  keep_interval now takes
+      the per-slot may-be-NaN flags and answers KEEP_BOTH on a min/max clause
+      (c_a <> c_b) as soon as one argument is flagged; the theorem assumes
+      [flags_sound ok maybe_nan w] (an unflagged slot holds an [ok], i.e.
+      ordered, value), [encloses lo hi w] and [ord_laws ok], whose law
+      [ol_sandwich] (x <= p < q <= y -> x < y) is only required for ok x, ok y.
+      No separate assumption on min/max arguments is needed.
+      HISTORY: the keep function used to ignore the flags.  That version is kept
+      as [NaNCounterexample.old_keep_interval] with the counterexample
+      [old_interval_push_unsound]: one clause max(a,b), w a = NaN, w b = 7,
+      bounds a in [0,5], b in [7,7]: the bounds "enclose" the values, the old
+      function answers KEEP_B, the pushed tape evaluates to 7, the full tape
+      to NaN.  [new_interval_push_sound]: with slot a flagged the fixed
+      function leaves that tape unchanged.
    4. pushed_wf (part (c)) is proved from the same [justified] hypothesis as
       (a); it only really needs "KEEP_A/KEEP_B are answered on min/max only". *)
 From Coq Require Import List Arith Bool Lia.
@@ -1040,50 +1041,53 @@ Section Main.
     forall s, o_ltb O (sg w s) (nth s lo (o_zero O)) = false /\
               o_ltb O (nth s hi (o_zero O)) (sg w s) = false.
 
-  Definition minmax_args_ok (ok : num -> Prop) (L : list clause) (w : slots) : Prop :=
-    forall c, In c L -> minmax c -> ok (sg w (c_a c)) /\ ok (sg w (c_b c)).
+  (* an unflagged slot holds an ordered (non-NaN) value *)
+  Definition flags_sound (ok : num -> Prop) (maybe_nan : list bool) (w : slots) : Prop :=
+    forall s, nth s maybe_nan false = false -> ok (sg w s).
 
-  Lemma keep_interval_justified ok v t lo hi :
+  Lemma keep_interval_justified ok v t lo hi maybe_nan :
     ord_laws ok ->
     encloses lo hi (ev (t_clauses t) v) ->
-    minmax_args_ok ok (t_clauses t) (ev (t_clauses t) v) ->
-    justified v (keep_interval O lo hi) t.
+    flags_sound ok maybe_nan (ev (t_clauses t) v) ->
+    justified v (keep_interval O lo hi maybe_nan) t.
   Proof.
-    intros [H1 H2 Hmin Hmax Hsw] Henc Hok c Hc. unfold keep_interval.
+    intros [H1 H2 Hmin Hmax Hsw] Henc Hfl c Hc. unfold keep_interval.
     set (w := ev (t_clauses t) v) in *.
     destruct (Henc (c_a c)) as [Hal Hah]. destruct (Henc (c_b c)) as [Hbl Hbh].
     set (alo := nth (c_a c) lo _) in *. set (ahi := nth (c_a c) hi _) in *.
     set (blo := nth (c_b c) lo _) in *. set (bhi := nth (c_b c) hi _) in *.
     unfold minmax.
     destruct (c_op c) eqn:Eop; (split; intro Hk; try discriminate Hk).
-    all: assert (Hmm : minmax c) by (unfold minmax; auto).
-    all: destruct (Hok c Hc Hmm) as [Hoa Hob].
     all: destruct (Nat.eqb_spec (c_a c) (c_b c)) as [Eab | Nab];
       [ try discriminate Hk; split; auto; rewrite <- Eab; auto | ].
+    all: destruct (nth (c_a c) maybe_nan false) eqn:Fa; [discriminate Hk|].
+    all: destruct (nth (c_b c) maybe_nan false) eqn:Fb; [discriminate Hk|].
+    all: cbn [orb] in Hk.
+    all: assert (Hoa := Hfl _ Fa); assert (Hob := Hfl _ Fb).
     all: destruct (o_ltb O bhi alo) eqn:Hba; try discriminate Hk;
       try (split; [auto | apply H1; apply (Hsw _ bhi alo _); assumption]).
     all: destruct (o_ltb O ahi blo) eqn:Hab; try discriminate Hk;
       split; auto; apply H2; apply (Hsw _ ahi blo _); assumption.
   Qed.
 
-  Theorem interval_push ok n t v lo hi :
+  Theorem interval_push ok n t v lo hi maybe_nan :
     tape_wf d n t -> length v = n -> ord_laws ok ->
     let w := ev (t_clauses t) v in
-    encloses lo hi w -> minmax_args_ok ok (t_clauses t) w ->
-    let t' := tape_push n (keep_interval O lo hi) t in
+    encloses lo hi w -> flags_sound ok maybe_nan w ->
+    let t' := tape_push n (keep_interval O lo hi maybe_nan) t in
     tape_wf d n t' /\
     sg (ev (t_clauses t') v) (t_root t') = sg w (t_root t).
   Proof.
-    intros Hwf Hlen Hlaws w Henc Hok. cbv zeta.
+    intros Hwf Hlen Hlaws w Henc Hfl. cbv zeta.
     destruct (push_preserves n t v _ Hwf Hlen
-                (keep_interval_justified ok v t lo hi Hlaws Henc Hok))
+                (keep_interval_justified ok v t lo hi maybe_nan Hlaws Henc Hfl))
       as (Ha & _ & _ & _ & Hc).
     split; assumption.
   Qed.
 End Main.
 
 (* ---------------------------------------------------------------------- *)
-(* 7. The [ok] (not-a-NaN) hypothesis of interval_push cannot be dropped  *)
+(* 7. The keep function that ignored the may-be-NaN flags was unsound     *)
 (* ---------------------------------------------------------------------- *)
 Module NaNCounterexample.
   (* naturals plus one unordered element: None plays the role of NaN *)
@@ -1107,6 +1111,33 @@ Module NaNCounterexample.
   Definition orc (_ : nat) (_ _ _ : N) : N := None.
   Definition dk : @deck N := deck0.
 
+  (* IntervalEvaluator::push as it was before the fix: bounds only *)
+  Definition old_keep_interval {num} (O : ops num) (lo hi : list num) (c : clause) : keep :=
+    let alo := nth (c_a c) lo (o_zero O) in let ahi := nth (c_a c) hi (o_zero O) in
+    let blo := nth (c_b c) lo (o_zero O) in let bhi := nth (c_b c) hi (o_zero O) in
+    match c_op c with
+    | OP_MAX =>
+        if Nat.eqb (c_a c) (c_b c) then KEEP_A
+        else if o_ltb O bhi alo then KEEP_A
+        else if o_ltb O ahi blo then KEEP_B
+        else KEEP_BOTH
+    | OP_MIN =>
+        if Nat.eqb (c_a c) (c_b c) then KEEP_A
+        else if o_ltb O bhi alo then KEEP_B
+        else if o_ltb O ahi blo then KEEP_A
+        else KEEP_BOTH
+    | _ => KEEP_ALWAYS
+    end.
+
+  (* the fixed function is the old one guarded by the flags: with no flag
+     raised they coincide *)
+  Lemma keep_interval_no_flags {num} (O : ops num) lo hi c :
+    keep_interval O lo hi [] c = old_keep_interval O lo hi c.
+  Proof.
+    unfold keep_interval, old_keep_interval.
+    destruct (c_a c), (c_b c); reflexivity.
+  Qed.
+
   (* slot 3 = max(slot 1, slot 2);  slot 1 holds NaN, slot 2 holds 7 *)
   Definition c := {| c_op := OP_MAX; c_id := 3; c_a := 1; c_b := 2 |}.
   Definition t := {| t_clauses := [c]; t_root := 3; t_terminal := false |}.
@@ -1128,9 +1159,9 @@ Module NaNCounterexample.
   Lemma NO_idem : forall x, o_bin NO OP_MIN x x = x /\ o_bin NO OP_MAX x x = x.
   Proof. intros [a|]; simpl; split; f_equal; lia. Qed.
 
-  Theorem interval_push_needs_ok :
+  Example old_interval_push_unsound :
     let w := eval_tape NO orc dk (t_clauses t) v in
-    let t' := tape_push 4 (keep_interval NO lo hi) t in
+    let t' := tape_push 4 (old_keep_interval NO lo hi) t in
     tape_wf dk 4 t /\ length v = 4 /\ encloses NO lo hi w /\
     sget NO w (t_root t) = None /\
     sget NO (eval_tape NO orc dk (t_clauses t') v) (t_root t') = Some 7.
@@ -1144,6 +1175,12 @@ Module NaNCounterexample.
     - intro s. do 4 (destruct s as [|s]; [split; reflexivity|]).
       split; destruct s; reflexivity.
   Qed.
+
+  (* with slot 1 flagged, the fixed keep function keeps both branches and
+     push returns the tape unchanged *)
+  Example new_interval_push_sound :
+    tape_push 4 (keep_interval NO lo hi [false; true; false; false]) t = t.
+  Proof. reflexivity. Qed.
 End NaNCounterexample.
 
 Print Assumptions push_preserves.
@@ -1152,4 +1189,4 @@ Print Assumptions point_push.
 Print Assumptions point_push_iter_preserves.
 Print Assumptions interval_push.
 Print Assumptions terminal_fixpoint.
-Print Assumptions NaNCounterexample.interval_push_needs_ok.
+Print Assumptions NaNCounterexample.old_interval_push_unsound.
